@@ -81,12 +81,12 @@ Definition defaults_isolated_in (nd : nat) (h0 : list obj) (s : state) : Prop :=
   (forall l, l < nd -> nth_error (heap s) l = nth_error h0 l) /\
   (forall l o l', nd <= l -> nth_error (heap s) l = Some o -> In l' (refs_of o) -> nd <= l').
 
-Lemma sinv_isolated nd h0 s : sinv nd NoA h0 s <-> nd <= length (heap s) /\ defaults_isolated_in nd h0 s.
+Lemma sinv_isolated nd h0 s : sinv nd NoA NoW h0 s <-> nd <= length (heap s) /\ defaults_isolated_in nd h0 s.
 Proof.
   split.
-  - intros (L & Old & Cl). split; [exact L|]. split; [exact Old|].
+  - intros (L & Old & Cl). split; [exact L|]. split; [intros l Hl; destruct (Old l Hl) as [[]|H]; exact H|].
     intros l o l' Hl Hn Hin. destruct (obj_ok_refs nd NoA o l' (Cl l o Hl Hn) Hin) as [H|[]]. exact H.
-  - intros (L & Old & Cl). split; [exact L|]. split; [exact Old|].
+  - intros (L & Old & Cl). split; [exact L|]. split; [intros l Hl; right; exact (Old l Hl)|].
     intros l o Hl Hn. apply obj_ok_of_refs. intros l' Hin. left. eapply Cl; eauto.
 Qed.
 
@@ -98,9 +98,9 @@ Theorem C08_reset_keeps_defaults_isolated :
     defaults_isolated_in nd h0 (snd (exec ct XFUEL (KDelAttr l a false false) s)).
 Proof.
   intros ct H1 H2 H3 nd h0 Hp s l a L Hs Hl.
-  assert (Hi : sinv nd NoA h0 s) by (apply sinv_isolated; auto).
-  destruct (proj1 (exec_sep ct H1 H2 nd NoA h0 (NoA_closed nd h0) (scalar_table_ok ct nd NoA H3)
-                     (NoA_dnc ct nd h0 Hp) XFUEL) (KDelAttr l a false false) Hl s Hi) as [Hs' _].
+  assert (Hi : sinv nd NoA NoW h0 s) by (apply sinv_isolated; auto).
+  destruct (proj1 (exec_sep ct H1 H2 nd NoA NoW h0 (NoA_closed nd h0) (scalar_table_ok ct nd NoA H3)
+                     (NoA_dnc ct nd h0 Hp) XFUEL) (KDelAttr l a false false) (or_introl Hl) s Hi) as [Hs' _].
   apply sinv_isolated in Hs'. apply Hs'.
 Qed.
 
@@ -114,7 +114,7 @@ Theorem C08_defaults_isolated :
     defaults_isolated_in nd h0 (fst (run_ops ct s roots ops)).
 Proof.
   intros ct H1 H2 H3 nd h0 Hp ops s roots L Hs Lr Hr Hops.
-  assert (Hi : sinv nd NoA h0 s) by (apply sinv_isolated; auto).
+  assert (Hi : sinv nd NoA NoW h0 s) by (apply sinv_isolated; auto).
   assert (H := defaults_isolated ct H1 H2 H3 nd h0 Hp ops s roots Hi Lr Hr Hops).
   apply sinv_isolated in H. apply H.
 Qed.
